@@ -271,6 +271,30 @@ func runC14(cs CaseSpec) *CaseResult {
 		for kx := range ft.Block.Signatures {
 			signers[kx] = true
 		}
+		if i%3 == 1 {
+			// decoys: entries filed under the keys of validators the victim knows
+			// that are not signatures of this block by them (junk, or the
+			// validator's genuine signature of another, honest block). The
+			// signature map is outside the body hash, so anybody can add them;
+			// they endorse nothing and the response is still signed by strangers only.
+			for _, hn := range nw.Nodes {
+				if hn.Puppet || hn.Key == nil || hn.Node == nil || rng.Intn(2) == 0 {
+					continue
+				}
+				decoy := []string{"1|1", fmt.Sprintf("%x|%x", rng.Int63(), rng.Int63())}[rng.Intn(2)]
+				if rng.Intn(2) == 0 {
+					if lb := hn.Core.Hg().Store.LastBlockIndex(); lb >= 0 {
+						if hb, e := hn.Core.Hg().Store.GetBlock(rng.Intn(lb + 1)); e == nil {
+							if gs, ok := hb.Signatures[hn.PubHex]; ok {
+								decoy = gs
+							}
+						}
+					}
+				}
+				ft.Block.Signatures[hn.PubHex] = decoy
+				res.count("forged_responses_decoy_entries_under_known_validators_keys", 1)
+			}
+		}
 		if i%5 == 4 {
 			// a joining node (fast-sync enabled) whose join request landed on the
 			// forger: the join response itself names the forged set
